@@ -39,6 +39,23 @@ CLAIMED = {
         "note": ("trusted: cbmc 6.11.0; extraction rule classes; shared_ptr as sole-owner pointer; std::copy/fill/equal models "
                  "(each verified against its contract); induction over operation histories argued in DESIGN.md, not machine-checked"),
     },
+    "C02": {
+        "text": ("partial - the layout core (bin -> element): ProjDataInMemory::get_index and ProjDataFromStream::get_offset (both storage orders, any "
+                 "permutation of the segment sequence and of the TOF sequence, stream offset, element size) against contracts taken from the property: "
+                 "(a) a bin with ANY of segment, axial position, view, tangential position or TOF index outside its range is reported as an error "
+                 "(no offset returned), an in-range bin never is; (b) the result equals the closed form 'rows of earlier segments in stream order + TOF "
+                 "block + axial position, view, tangential position' (prefix-sum loop under loop contract; std::find model verified); "
+                 "(c) lemmas over that closed form in mixed-radix form: every in-range bin lies inside the buffer / data part of the stream, two "
+                 "different bins never share an element (byte ranges disjoint), a row of tangential positions is contiguous - hence a value written "
+                 "through one access path is what any other path reads and no other bin changes, for every access path that addresses rows through "
+                 "these two functions. Parametric: numbers of views / tangential positions / bytes per element are constants per job. Not decided: the "
+                 "get_/set_ viewgram / sinogram / segment / RelatedViewgrams code itself, on-disk number type and byte order, Interfile header round "
+                 "trip, flush visibility to a second reader."),
+        "note": ("trusted: cbmc 6.11.0 + kissat; at most 5 segments and 3 TOF bins per proof; segment_sequence/timing_poss_sequence are permutations and "
+                 "offset_3d_data is one TOF block (constructors, assumed); the equality of the distributed closed form (verified against the code) and "
+                 "the mixed-radix form (used by the lemmas) is distributivity of integer multiplication: discharged by CBMC for power-of-two sizes only, "
+                 "assumed otherwise; instances of the proved prefix-sum lemma are assumed where used"),
+    },
     "C03": {
         "text": ("partial - index/bookkeeping core: (a) ProjMatrixByBin::cache_key packs (axial, tangential, TOF) into disjoint sign+magnitude "
                  "fields of a 64-bit key (decoder postconditions) and is injective on its domain (lemma over the contract), so together "
@@ -80,7 +97,7 @@ CLAIMED = {
 
 _PENDING = "claimed in DESIGN.md but the check is not built yet in this commit; will move to checks when it exists"
 NOT_APPLICABLE = {
-    "C02": _PENDING, "C08": _PENDING, "C10": _PENDING, "C20": _PENDING,
+    "C08": _PENDING, "C10": _PENDING, "C20": _PENDING,
     "C04": "linearity/adjointness/additivity are equalities up to floating-point reassociation between long accumulations through virtual projector classes; bit-precise CBMC cannot state 'up to rounding' compositionally nor close the Siddon/interpolation loops; no leaf contract decides it",
     "C05": "value/gradient/Hessian are float sums over all bins with log(), reached only through virtual objective-function/projector objects; CBMC's libm model leaves log unconstrained; element-wise kernels do not decide the textbook equality",
     "C07": "EM update is spread over array expressions, back projection and sensitivity caches behind virtual calls; monotonicity/count preservation are real-analysis facts that do not survive bit-precise float semantics; the schedule part of restartability is decided under C06",
